@@ -10,7 +10,7 @@ import typing as t
 from ._authentication import AuthenticationCredential, AuthenticationOptions
 from ._controls import ControlOptions, LDAPControl, unpack_ldap_control
 from ._filter import FilterOptions, LDAPFilter
-from .asn1 import ASN1Reader, ASN1Tag, ASN1Writer, TagClass
+from .asn1 import ASN1Reader, ASN1Tag, ASN1Writer, NotEnougData, TagClass
 
 
 @dataclasses.dataclass
@@ -49,6 +49,20 @@ def unpack_ldap_message(
         LDAPMessage: The unpacked message object.
     """
     message = reader.read_sequence(hint="LDAPMessage")
+
+    # The whole LDAPMessage envelope is available at this point, running out
+    # of data while reading its contents means the contents are malformed and
+    # not that more data needs to be received.
+    try:
+        return _unpack_ldap_message_contents(message, options)
+    except NotEnougData as e:
+        raise ValueError(f"LDAPMessage contents are truncated: {e}") from e
+
+
+def _unpack_ldap_message_contents(
+    message: ASN1Reader,
+    options: PackingOptions,
+) -> LDAPMessage:
     message_id = message.read_integer(hint="LDAPMessage.messageId")
 
     protocol_op_header = message.peek_header()
